@@ -200,6 +200,14 @@ func gen(tier string, r *lib.Rand, emit func(string)) {
 	}
 	recs(nil)
 
+	// (a'') the position argument at machine-word boundaries (Go int): all fail with an index panic
+	for _, e := range []string{"-", "1", "1,2,3", "1,2,4,3", "2,1"} {
+		for _, k := range []int{-1, -2, -1 << 31, -1 << 63, 1<<31 - 1, 1 << 31, 1 << 32, 1<<63 - 1, 1<<63 - 2, 1000} {
+			emit(fmt.Sprintf("ops %s %d", e, k))
+			emit(fmt.Sprintf("op %s %d", e, k))
+		}
+	}
+
 	// (b) every ascending valid chain up to chainLen; every order of those up to permLen,
 	// a sample of orders beyond; also with the 1 moved off the front
 	for n := 1; n <= chainLen; n++ {
@@ -687,7 +695,7 @@ func oracle1(c, res string) string {
 		}
 	case "ops", "op":
 		k := lib.Atoi(f[2])
-		if k >= len(seq) && k > 0 {
+		if k < 0 || (k >= len(seq) && k > 0) {
 			break // not a position of the sequence: outside the property, compared with the model only
 		}
 		want := [][2]int{}
